@@ -999,7 +999,8 @@ impl DVec2 {
         let a = self.angle_to(rhs);
         let abs_a = math::abs(a);
         // When `max_angle < 0`, rotate no further than `PI` radians away
-        let angle = max_angle.clamp(abs_a - core::f64::consts::PI, abs_a) * math::signum(a);
+        // not `clamp`, which panics when the angle is NaN (zero length or non-finite input)
+        let angle = max_angle.max(abs_a - core::f64::consts::PI).min(abs_a) * math::signum(a);
         Self::from_angle(angle).rotate(*self)
     }
 
